@@ -75,6 +75,13 @@ def randomConnected (name : Nat → α) (n k : Nat) (t : Edges) (picks : List (N
     | some es => .ok (relabel name (toDict n es))
     | none => .valueError
 
+/-- the same entry point with the edge count as Python sees it: a signed integer parsed from the
+topology name (`int(topology[17:])` accepts a minus sign).  The range test is the code's own
+comparison on integers: `nr_edges < nn - 1 or nr_edges > nn*(nn-1)/2`. -/
+def randomConnectedZ (name : Nat → α) (n : Nat) (k : Int) (t : Edges) (picks : List (Nat × Nat)) : Outcome α :=
+  if k < (n : Int) - 1 ∨ (n : Int) * ((n : Int) - 1) < 2 * k then .valueError
+  else randomConnected name n k.toNat t picks
+
 def randomTree (name : Nat → α) (n : Nat) (t : Edges) : Adj α := relabel name (toDict n t)
 
 /-! ### the graph predicates the property talks about -/
